@@ -19,6 +19,13 @@ CASES = [
     ("1 ß5", "W", [], "⟨ 5 ⟩\n"), ("0 ß5", "W", [], "⟨ ⟩\n") if False else ("1 ß5 6", "W", [], "⟨ 5 | 6 ⟩\n"), ("⟨1|2|3⟩ ɖ+", "", [], "⟨ 1 | 3 | 6 ⟩\n"), ("3 ⁽›†", "", [], "4\n"), ("2 3 ‡+d†", "", [], "10\n") if False else ("3 ‡›d†", "", [], "8\n"),
     ("@g:a:b|←a ←b -;7 2 @g;", "", [], "-5\n"), ("@h:2|+;3 4 @h;", "", [], "7\n"), ("3 λ:1>[1-x*|_1];†", "", [], "6\n"), ("λ?;†", "", [9], "9\n"), 
     ("5 →a 3(←a›→a) ←a", "", [], "8\n"), ("3(n)", "s", [], "3\n") if False else ("⟨1|2|3⟩", "s", [], "6\n"), ("`a` `b`", "j", [], "b\n"), ("1,2", "", [], "1\n"), ("1,2", "o", [], "1\n2\n"), ("", "", [4], "4\n"), ("1[2[3|4]|5]", "", [], "3\n"), ("0[2|0[3|4]]", "", [], "4\n"), ("1 2 $", "W", [], "⟨ 2 | 1 ⟩\n"), ("3 :", "W", [], "⟨ 3 | 3 ⟩\n"),
+    # every lambda kind and the for loop applied to a NUMBER under the range flags: the implicit range is the running
+    # program's (M: starts at 0, m: stops one early, Ṁ: both)
+    ("5'2<;", "M", [], "⟨ 0 | 1 ⟩\n"), ("5'2%;", "m", [], "⟨ 1 | 3 ⟩\n"), ("4'2%;", "Ṁ", [], "⟨ 1 | 3 ⟩\n"), ("'2%;", "m", [5], "⟨ 1 | 3 ⟩\n"),
+    ("3ƛ2*;", "M", [], "⟨ 0 | 2 | 4 | 6 ⟩\n"), ("3ƛ2*;", "m", [], "⟨ 2 | 4 ⟩\n"), ("32µN;", "M", [], "⟨ 3 | 2 ⟩\n"),
+    ("3(n)", "WṀ", [], "⟨ 0 | 1 | 2 ⟩\n"), ("3ɾ", "M", [], "⟨ 1 | 2 | 3 ⟩\n"), ("3ɾ", "m", [], "⟨ 1 | 2 | 3 ⟩\n"), ("3v›", "M", [], "⟨ 1 | 2 | 3 | 4 ⟩\n") if False else ("3ʀ", "m", [], "⟨ 0 | 1 | 2 | 3 ⟩\n"),
+    # a lambda / function without arguments reads 0 when its own scope is empty, not the program's inputs
+    ("@f|1+;@f;", "", [3, 4], "1\n"), ("λ0|+;†", "", [3, 4], "0\n"),
 ]
 
 
